@@ -31,9 +31,19 @@ Clause -> oracle -> domain
      After serialisation the supplied tree must be the reference tree (minus the omitted values, or with
      them filled in), retyped (context-type changes keep the tree consistent).  While deserialising (MonitoredDeserialiser) the set
      of (path -> value) pairs must grow monotonically (never overwrites).
-  U  an unused supplied value makes serialisation fail with UnusedTargetError: a spare key in the root / a
-     nested / a list-element description, or one extra element in a list of values / sub-descriptions /
-     computed values.
+  U  an unused supplied value makes serialisation fail with UnusedTargetError: 1..3 never-used keys in the root / a
+     nested / a list-held description - spare names, or fields of the program that are guarded by a condition which is
+     false in this run (the value is supplied although the flag, explicit or defaulted, says it is not written) - or one
+     extra element in a list of values / sub-descriptions / computed values.  Each program is tried with three
+     supplies: nothing omitted; every value for which a default applies omitted; a random part (25/50/75 %) omitted
+     (default_values given) - so that k spare values meet 0..3+ scalars served from the defaults in the same
+     description (tallied in the coverage as a k x j matrix).  M and W also run with the other values left to defaults.
+  G  the U x default_values interaction as a complete table (G_TABLE): flag-guarded fields / spare names (0..3, 0 = control)
+     next to 0..4 scalars served from the defaults, 4 context types, root / nested / list-held, raw / typed supply.
+  V  the real VC-2 programs (bitstream/vc2.py) of the 13 fixeddict types with flag-guarded fields, with the library's
+     vc2_default_values: every non-empty subset of the guarded fields supplied while the flag is absent (default
+     False) or explicitly False, directly and nested in source_parameters / color_spec -> UnusedTargetError; one
+     control per type (flags true, complete) must serialise.  Exhaustive over that finite table.
   W  wrong shape.  A non-list (0, 1, None, False, True, b"", b"x", empty / non-empty bitarray, "", "x", {}, a dict, a
      float, tuples) supplied for a target the program declares as a list -> ListTargetContainsNonListError (documented),
      whatever the number of uses.  A list / dict / tuple supplied for an integer target (nbits, uint_lit, uint, sint) or as
@@ -54,7 +64,7 @@ Clause -> oracle -> domain
      computed value after the use that took the default).
 Domains
   random: seeded programs (statement budget 6..30 quick, ..60 thorough; nesting depth <= 3/4; loop counts
-          <= 3; bounded block lengths 0..40 bits), QUICK_CASES / THOROUGH_CASES of them, each with 2 R, 2 U,
+          <= 3; bounded block lengths 0..40 bits), QUICK_CASES / THOROUGH_CASES of them, each with 2 R, 3 U,
           2 W, 2 M and 2 X experiments (an X experiment = Serialiser run + Deserialiser run).
   exhaustive: ALL valid statement sequences of length <= 3 (quick) / <= 4 (thorough) over the 16 statement
           templates in TEMPLATES (values seeded), same experiments.
@@ -91,7 +101,7 @@ ALIGN = ["p0", "p1", "p2"]        # byte_align padding targets
 BLOCKPAD = ["q0", "q1"]           # unused-bits targets of bounded blocks
 SUBS = ["c0", "c1", "c2"]         # sub-descriptions
 COMPS = ["_k0", "_k1", "_k2"]     # computed values
-SPARE = ["zz0", "zz1"]            # declared in the typed descriptions, used by no program
+SPARE = ["zz0", "zz1", "zz2"]            # declared in the typed descriptions, used by no program
 POOLS = {"prim": sorted(PRIMS), "align": ALIGN, "blockpad": BLOCKPAD, "sub": SUBS, "comp": COMPS}
 ALL_NAMES = [n for p in POOLS.values() for n in p] + [n + "L" for p in POOLS.values() for n in p] + SPARE
 INT_KINDS = ("bool", "uint", "sint", "nbits", "uint_lit")
@@ -530,10 +540,11 @@ class Leaf(object):
 
 
 class Ctx(object):
-    __slots__ = ("entries", "final", "cur")
+    __slots__ = ("entries", "final", "cur", "cond")
 
     def __init__(self):
         self.entries, self.final, self.cur = {}, None, None
+        self.cond = []   # (name, kind, arg) of plain fields guarded by a condition that was false in this run (the branch not taken)
 
 
 class Lst(object):
@@ -623,7 +634,9 @@ class RefWalk(object):
         elif op == "comp":
             self.put(ctx, s[1], Leaf(s[1], ev_comp(s[2], self.env), ctx.cur, True))
         elif op == "if":
-            self.body(s[2] if ev_cond(s[1], self.env) else s[3], ctx)
+            taken = ev_cond(s[1], self.env)
+            ctx.cond += [(t[2], t[1], t[3]) for t in (s[3] if taken else s[2]) if t[0] == "prim" and not t[2].endswith("L")]
+            self.body(s[2] if taken else s[3], ctx)
         elif op == "rep":
             for _ in range(ev_count(s[1], self.env)):
                 self.body(s[2], ctx)
@@ -709,7 +722,7 @@ def comp_supply(rng, leaf):
     return _NOPE if r < 0.4 else rng.choice(["junk", -1, None, leaf.value]) if r < 0.85 else leaf.value
 
 
-def provide(ctx, rng, mode, omit, omitted, drop=None, omit_p=0.7):
+def provide(ctx, rng, mode, omit, omitted, drop=None, omit_p=0.7, omit_subs=True):
     """The description handed to the Serialiser.  mode: raw | typed | mixed (per node).  omit: leave out values
     equal to the applicable default (recorded in `omitted`).  drop: a Leaf / Lst to leave out (clause M)."""
     cls = node_cls(ctx, mode, rng)
@@ -727,10 +740,10 @@ def provide(ctx, rng, mode, omit, omitted, drop=None, omit_p=0.7):
             else:
                 d[name] = item.value
         elif isinstance(item, Ctx):
-            if omit and fully_omittable(item) and rng.random() < 0.5:
+            if omit and omit_subs and fully_omittable(item) and rng.random() < 0.5:
                 mark_omitted(item, omitted)
             else:
-                d[name] = provide(item, rng, mode, omit, omitted, drop, omit_p)
+                d[name] = provide(item, rng, mode, omit, omitted, drop, omit_p, omit_subs)
         elif item is drop:
             pass
         else:
@@ -739,10 +752,10 @@ def provide(ctx, rng, mode, omit, omitted, drop=None, omit_p=0.7):
             if not items:
                 lst = []
             elif isinstance(items[0], Ctx):
-                while omit and keep > 0 and fully_omittable(items[keep - 1]) and rng.random() < 0.6:
+                while omit and omit_subs and keep > 0 and fully_omittable(items[keep - 1]) and rng.random() < 0.6:
                     keep -= 1
                     mark_omitted(items[keep], omitted)
-                lst = [provide(c, rng, mode, omit, omitted, drop, omit_p) for c in items[:keep]]
+                lst = [provide(c, rng, mode, omit, omitted, drop, omit_p, omit_subs) for c in items[:keep]]
             elif items[0].computed:
                 keep = rng.randint(0, keep)
                 lst = [rng.choice(["junk", it.value]) for it in items[:keep]]
@@ -1054,36 +1067,54 @@ def run_case(prog, rng, acc, ident, verbose=False):
             acc.fail("R", ident, prog, "a value already deserialised changed or vanished while deserialising went on", "monotonically growing description", rd.mono, exp_info, provided)
 
     # ---------------------------------------------------------------- U: unused supplied value
+    # three supplies per program: nothing omitted / every omittable value omitted / a random part omitted (default_values given), so that spare
+    # values meet 0..n scalars served from the defaults in the same description
     lsts = [(p, n, it) for p, c in nodes for n, it in c.entries.items() if isinstance(it, Lst)]
-    for _ in range(2):
+    for uvar in ("none", "all", "part"):
         mode = rng.choice(["raw", "typed", "mixed"])
-        provided = provide(root, rng, mode, False, set())
-        if lsts and rng.random() < 0.5:
+        omitted = set()
+        provided = provide(root, rng, mode, uvar != "none", omitted, None, 1.0 if uvar == "all" else rng.choice([0.25, 0.5, 0.75]), False)
+        dflt = DEFAULTS if (uvar != "none" or rng.random() < 0.5) else None
+
+        def n_om(c):
+            return sum(1 for it in c.entries.values() if isinstance(it, Leaf) and id(it) in omitted)
+        if lsts and rng.random() < 0.35:
             p, name, lst = rng.choice(lsts)
             holder = nav(provided, p)
             cat = cat_of(name)
             if cat == "comp":
                 holder[name] = ["junk"] * (len(lst.items) + 1)
+            elif cat == "prim":
+                holder[name] = [it.value for it in lst.items] + [rand_value(rng, *PRIMS[base_of(name)])]   # complete (nothing left to the defaults) plus one
             else:
                 cur = holder.get(name)
                 if cur is None:
                     holder[name] = cur = []
                 if cat == "sub":
                     cur.append({} if rng.random() < 0.5 or not cur else plain(cur[-1]))
-                elif cat == "prim":
-                    cur.append(rand_value(rng, *PRIMS[base_of(name)]))
                 else:
                     cur.append(BA())
-            exp_info = {"clause": "U", "mode": mode, "extra": "one more element in list target %r of the description at %r" % (name, list(p))}
+            exp_info = {"clause": "U", "mode": mode, "omission": uvar, "extra": "one more element in list target %r of the description at %r" % (name, list(p))}
         else:
-            p, c = rng.choice(nodes)
-            key = rng.choice(SPARE)
-            nav(provided, p)[key] = rng.choice([0, b"x", True, {"zz1": 1}, [1, 2]])
-            exp_info = {"clause": "U", "mode": mode, "extra": "key %r in the description at %r" % (key, list(p))}
-        rs = run_ser(prog, provided, DEFAULTS if rng.random() < 0.5 else None)
+            with_om = [(p, c) for p, c in nodes if n_om(c)]
+            with_cond = [(p, c) for p, c in nodes if any(n not in c.entries for n, _k, _a in c.cond)]
+            r = rng.random()
+            p, c = rng.choice(with_cond) if with_cond and r < 0.35 else rng.choice(with_om) if with_om and r < 0.8 else rng.choice(nodes)
+            holder = nav(provided, p)
+            guarded = {n: (k, a) for n, k, a in c.cond if n not in c.entries}
+            pool = sorted(guarded) + SPARE if rng.random() < 0.7 else SPARE + sorted(guarded)
+            keys = pool[:rng.randint(1, 3)]
+            for key in keys:
+                holder[key] = rand_value(rng, *guarded[key]) if key in guarded else rng.choice([0, b"x", True, {"zz1": 1}, [1, 2], None])
+            acc.bump("U spare values=%d (of which guarded by a false condition=%d) vs scalars of the same description served from default_values=%d"
+                     % (len(keys), sum(k in guarded for k in keys), min(3, n_om(c))))
+            exp_info = {"clause": "U", "mode": mode, "omission": uvar, "extra": "never-used key(s) %r in the description at %r (depth %d%s)"
+                        % (keys, list(p), len(p), ", list-held" if any(i is not None for _n, i in p) else ""),
+                        "scalars_of_that_description_served_from_defaults": n_om(c)}
+        rs = run_ser(prog, provided, dflt)
         acc.execs["U"] += 1
         if verbose:
-            print("U %s -> %s" % (exp_info["extra"], exc_str(rs)))
+            print("U[%s] %s -> %s" % (uvar, exp_info["extra"], exc_str(rs)))
         if not isinstance(rs.exc, S.exc.UnusedTargetError):
             acc.fail("U", ident, prog, "serialisation of a description holding an unused value must fail with UnusedTargetError", "UnusedTargetError",
                      exc_str(rs) or "no exception", exp_info, provided)
@@ -1107,7 +1138,7 @@ def run_case(prog, rng, acc, ident, verbose=False):
         if not cands:
             break
         p, name, drop, want = rng.choice(cands)
-        provided = provide(root, rng, mode, False, set(), drop)
+        provided = provide(root, rng, mode, use_defaults and rng.random() < 0.6, set(), drop, rng.choice([0.5, 1.0]), False)   # other values may be left to the defaults
         exp_info = {"clause": "M", "mode": mode, "default_values": use_defaults,
                     "removed": "%s %r of the description at %r" % ("whole list target" if isinstance(drop, Lst) else "last element of list target" if name.endswith("L") else "target", name, list(p))}
         rs = run_ser(prog, provided, DEFAULTS if use_defaults else None)
@@ -1131,7 +1162,8 @@ def run_case(prog, rng, acc, ident, verbose=False):
             break
         form = rng.choice(forms)
         mode = rng.choice(["raw", "typed", "mixed"])
-        provided = provide(root, rng, mode, False, set())
+        w_omit = form in ("list<-nonlist", "sub<-nondict") and rng.random() < 0.5   # also among values left to the defaults
+        provided = provide(root, rng, mode, w_omit, set(), None, rng.choice([0.5, 1.0]), False)
         want, conclusive = None, True
         if form == "list<-nonlist":
             p, name, lst = rng.choice(lsts)
@@ -1176,8 +1208,8 @@ def run_case(prog, rng, acc, ident, verbose=False):
                 holder[p[-1][0]][p[-1][1]] = v
             loc = p
             where = "sub-description at %r" % (list(p),)
-        exp_info = {"clause": "W", "mode": mode, "form": form, "wrong_value": repr(v), "where": where}
-        rs = run_ser(prog, provided, DEFAULTS if rng.random() < 0.5 else None)
+        exp_info = {"clause": "W", "mode": mode, "form": form, "other_values_left_to_defaults": w_omit, "wrong_value": repr(v), "where": where}
+        rs = run_ser(prog, provided, DEFAULTS if (w_omit or rng.random() < 0.5) else None)
         acc.execs["W"] += 1
         outcome = exc_str(rs) or "no exception"
         lost = None
@@ -1280,6 +1312,159 @@ def _same_plain(a, b):
         return False
 
 
+# ======================================================================================================
+# V: the real VC-2 programs with flag-guarded fields (bitstream/vc2.py), serialised with the library's own
+# default values (vc2_fixeddicts.vc2_default_values): the flag is left to its default (False) or given as
+# False, one or more of the fields it guards are supplied -> they are never used -> UnusedTargetError
+# ======================================================================================================
+VC2_GUARDED = [("FrameSize", "frame_size", "frame_size"), ("ColorDiffSamplingFormat", "color_diff_sampling_format", "color_diff_sampling_format"),
+               ("ScanFormat", "scan_format", "scan_format"), ("FrameRate", "frame_rate", "frame_rate"), ("PixelAspectRatio", "pixel_aspect_ratio", "pixel_aspect_ratio"),
+               ("CleanArea", "clean_area", "clean_area"), ("SignalRange", "signal_range", "signal_range"), ("ColorSpec", "color_spec", "color_spec"),
+               ("ColorPrimaries", "color_primaries", None), ("ColorMatrix", "color_matrix", None), ("TransferFunction", "transfer_function", None),
+               ("ExtendedTransformParameters", "extended_transform_parameters", None), ("QuantMatrix", "quant_matrix", None)]
+
+
+def vc2_family(rep):
+    from vc2_conformance.bitstream import vc2, vc2_fixeddicts as fd
+    from vc2_data_tables import BaseVideoFormats
+
+    dv = fd.vc2_default_values
+    Unused = S.exc.UnusedTargetError
+    runs = bad = 0
+    samples = []
+
+    def ser(call, desc):
+        w = S.Writer(_io.BytesIO())
+        try:
+            with S.serdes.Serialiser(w, desc, dv) as sd:
+                call(sd)
+            return None
+        except Exception as e:  # classified by the caller
+            return e
+
+    def report(name, what, inputs, expected, e):
+        nonlocal bad
+        bad += 1
+        if bad <= 3:
+            rep.violation("c21-V-%s" % name, {"what": what, "inputs": inputs, "expected": expected,
+                                              "observed": "no exception" if e is None else "%s: %s" % (type(e).__name__, str(e)[:300])})
+
+    for tname, fname, parent_key in VC2_GUARDED:
+        T, f = getattr(fd, tname), getattr(vc2, fname)
+        D = dv[T]
+        flags = [k for k in T.entry_objs if D.get(k) is False]
+        guarded = [k for k in T.entry_objs if k not in flags]
+        if not flags or not guarded:
+            raise RuntimeError("checker error: %s has no flag-guarded field any more" % tname)
+        state = {"dwt_depth": 0, "dwt_depth_ho": 0}
+
+        def value(k):
+            return [1, 2] if (tname, k) == ("QuantMatrix", "quant_matrix") else D[k] if k in D else {}
+        if tname in ("ExtendedTransformParameters", "QuantMatrix"):
+            direct = lambda sd, f=f: f(sd, dict(state))
+        else:
+            direct = lambda sd, f=f: f(sd, dict(state), {})
+        # control: flags true and every guarded field supplied (custom index 0 where an index selects a preset) serialises
+        good = T(dict({k: True for k in flags}, **{k: value(k) for k in guarded if k in D}))
+        if "index" in good and tname in ("FrameRate", "PixelAspectRatio", "SignalRange", "ColorSpec"):
+            good["index"] = 0
+        if tname == "QuantMatrix":
+            good["quant_matrix"] = [1]
+        runs += 1
+        e = ser(direct, good)
+        if e is not None:
+            report("control-" + tname, "a complete %s description (flags true, every guarded field supplied) must serialise" % tname, {"type": tname, "description": repr(good)}, "no exception", e)
+        for n in range(1, len(guarded) + 1):
+            for sub in itertools.combinations(guarded, n):
+                for explicit in (False, True):
+                    def make():
+                        d = T({k: value(k) for k in sub})
+                        if explicit:
+                            for k in flags:
+                                d[k] = False
+                        return d
+                    routes = [("direct", direct, make())]
+                    if parent_key:
+                        routes.append(("inside source_parameters", lambda sd: vc2.source_parameters(sd, dict(state), BaseVideoFormats.custom_format), fd.SourceParameters({parent_key: make()})))
+                    elif tname in ("ColorPrimaries", "ColorMatrix", "TransferFunction"):
+                        routes.append(("inside color_spec (custom, index 0)", lambda sd: vc2.color_spec(sd, dict(state), {}),
+                                       fd.ColorSpec(custom_color_spec_flag=True, index=0, **{fname: make()})))
+                    for route, call, desc in routes:
+                        shown = repr(desc)
+                        runs += 1
+                        e = ser(call, desc)
+                        if len(samples) < 3 and route != "direct":
+                            samples.append({"program": route, "description": shown})
+                        if not isinstance(e, Unused):
+                            report("%s-%s" % (tname, "-".join(sub)), "%s: field(s) %s supplied while the guarding flag is %s must make serialisation with vc2_default_values fail with UnusedTargetError"
+                                   % (tname, list(sub), "given as False" if explicit else "left to its default (False)"),
+                                   {"type": tname, "program": "vc2.%s, %s" % (fname, route), "description": shown, "default_values": "vc2_fixeddicts.vc2_default_values"}, "UnusedTargetError", e)
+    rep.add_bounded("real VC-2 programs: a flag-guarded field supplied while its flag is false / defaulted -> UnusedTargetError [vc2 family]",
+                    "exhaustive over the table: %d fixeddict types of bitstream/vc2_fixeddicts.py with flag-guarded fields x every non-empty subset of the guarded fields x flag {absent (default False), "
+                    "explicit False} x {the type's own program, nested in source_parameters / color_spec}; vc2_default_values; plus one control per type (flags true, complete) that must serialise"
+                    % len(VC2_GUARDED), runs, True, distinct=runs, samples=samples)
+
+
+# ======================================================================================================
+# G: the U x DEFAULTS interaction as a complete small table (the random domain reaches the cells with 2..3 defaulted scalars only rarely)
+# ======================================================================================================
+G_TABLE = {  # type: (flag whose default makes the condition false, defaulted scalars, fields guarded by the flag, a scalar without default)
+    "TA": ("u1", ["u0", "s0", "n5"], ["u2", "u3", "b2"], "l2"),
+    "TB": ("b0", ["u0", "s1", "l2"], ["u1", "u3", "b2"], "l1"),
+    "D": ("b2", ["u3", "s0"], ["u0", "u1", "b0"], "l1"),
+    "TA2": ("b1", ["u0", "n12"], ["u2", "u3", "b2"], "l1"),
+}
+
+
+def guarded_family(rep, seed):
+    rng = random.Random("c21/G/%d" % seed)
+    runs = bad = 0
+    cells = set()
+    for tname, (flag, dnames, gnames, xname) in sorted(G_TABLE.items()):
+        T = TYPES[tname]
+        D = DEFAULTS[T]
+        prim = lambda n, var=None: ["prim", PRIMS[n][0], n, PRIMS[n][1], var]
+        body = [["type", tname], prim(flag, "f"), ["if", ["odd", "f"], [prim(g) for g in gnames], []]] + [prim(d) for d in dnames] + [prim(xname)]
+        if not static_ok(body) or int(D[flag]) & 1 or any(d not in D for d in dnames) or xname in D:
+            raise RuntimeError("checker error: G_TABLE row %s is not what it claims" % tname)
+        for depth in ("root", "nested", "list-held"):
+            prog = body if depth == "root" else [["sub", "c0", body, "with"]] if depth == "nested" else \
+                [["list", "c0L"], ["sub", "c0L", [["type", "TB"], prim("u3")], "enterleave"], ["sub", "c0L", body, "with"]]
+            for j in range(0, len(dnames) + 1):
+                for flag_given in (False, True):
+                    for typed in (False, True):
+                        for k in range(0, 4):
+                            for spare_kind in (("guarded", "spare", "mixed") if k else ("none",)):
+                                inner = (T if typed else dict)()
+                                if flag_given:
+                                    inner[flag] = D[flag]
+                                for d in dnames[j:]:
+                                    inner[d] = D[d] + 1 if d != "s0" else 9          # supplied, different from the default
+                                inner[xname] = 77
+                                keys = (gnames if spare_kind == "guarded" else SPARE if spare_kind == "spare" else [gnames[0]] + SPARE)[:k]
+                                for key in keys:
+                                    inner[key] = rand_value(rng, *PRIMS[key]) if key in PRIMS else rng.choice([0, None, b"x", {"zz1": 1}])
+                                desc = inner if depth == "root" else {"c0": inner} if depth == "nested" else {"c0L": [{"u3": 5}, inner]}
+                                shown = repr(desc)
+                                rs = run_ser(prog, desc, DEFAULTS)
+                                runs += 1
+                                cells.add((k, j + (0 if flag_given else 1)))
+                                ok = rs.exc is None if k == 0 else isinstance(rs.exc, S.exc.UnusedTargetError)
+                                if not ok:
+                                    bad += 1
+                                    if bad <= 3:
+                                        rep.violation("c21-G-%d" % bad, {
+                                            "what": "a description with %d never-used value(s) %r next to %d scalar(s) served from default_values (flag %s) %s"
+                                                    % (k, keys, j + (0 if flag_given else 1), "given" if flag_given else "defaulted",
+                                                       "must make serialisation fail with UnusedTargetError" if k else "is complete and must serialise"),
+                                            "inputs": {"program": prog, "supplied_description": shown, "default_values": "DEFAULTS of bounded/c21_serdes.py", "depth": depth, "type": tname},
+                                            "expected": "UnusedTargetError" if k else "no exception", "observed": exc_str(rs) or "no exception"})
+    rep.add_bounded("never-used values next to scalars served from default_values, complete table [guarded-field family]",
+                    "exhaustive over the table: 4 context types x {root, nested, list-held} x 0..3 defaulted scalars omitted x flag {given false, defaulted false} x supplied {raw, typed} x "
+                    "0..3 never-used values (fields guarded by the false flag / spare names / mixed; 0 = control, must serialise); cells (never-used, defaulted) covered: %s" % sorted(cells),
+                    runs, True, distinct=runs, samples=[])
+
+
 def case_program(domain, idx, seed, tier, rng):
     if domain == "exhaustive":
         return exhaustive_programs(3 if tier == "quick" else 4)[idx]
@@ -1356,6 +1541,8 @@ def check(rep, tier, seed):
                             note="executions = runs of the real Serialiser/Deserialiser; distinct = distinct programs")
         for k, v in sorted(t["cov"].items()):
             rep.extra_coverage["C21 %s: %s" % (domain, k)] = v
+    vc2_family(rep)
+    guarded_family(rep, seed)
     rep.extra_coverage["C21 wall seconds"] = round(time.time() - t0, 1)
 
 
